@@ -253,6 +253,12 @@ def run(ctx):
                     hist.append([a, b])
         for _ in range(40):
             hist.append(rng.sample(sorted(refs), 3))
+        # the directed histories of the quick tier (recorded findings are reproduced in both tiers)
+        for h in (["forward", "none"], ["forward", "forward"], ["none", "forward", "forward"], ["gen-tm-override", "gen-tm-user"],
+                  ["gen-tm-user", "gen-tm-override", "gen-tm-user"], ["tutorial", "clibrary"], ["pointers-cxx", "pointers-c", "pointers-cxx"],
+                  ["struct-c", "struct-cxx"], ["struct-cxx", "struct-c"], ["classes", "clibrary", "strings"]):
+            if all(n in refs for n in h):
+                hist.append(h)
 
     hist = [list(x) for x in dict.fromkeys(tuple(h) for h in hist)]       # no duplicates: one directory per history
 
